@@ -8,7 +8,7 @@ export const PROVENANCE = ['vueNamed', 'vueNamedInner', 'vueAliased', 'nsMember'
 export const DECLS = ['const', 'let', 'var', 'exportConst', 'exportDefault', 'assignment', 'nestedInCall', 'objectProp'];
 // user-supplied option keys: how each of props / emits / name is written (or not)
 const KEY_FORMS = ['absent', 'kv', 'strKey', 'shorthand', 'computedLit', 'viaSpread'];
-export const SHAPES = ['none', 'objLiteral', 'objLiteralTwoSpreads', 'identOptions', 'callOptions', 'spreadArgsAll', 'spreadArgsRest', 'spreadArgsSetupOnly', 'spreadHeadThenOpts', 'objectFirstArg', 'namedFnExpr'];
+export const SHAPES = ['none', 'objLiteral', 'objLiteralTwoSpreads', 'identOptions', 'callOptions', 'spreadArgsAll', 'spreadArgsRest', 'spreadArgsSetupOnly', 'spreadHeadThenOpts', 'objectFirstArg', 'namedFnExpr', 'noArgs'];
 
 const USER = { props: 'UP', emits: 'UE', name: '"UserName"' };
 
@@ -74,6 +74,8 @@ function buildCase(rng, prov, decl, shape, forms, resolveType) {
     case 'callOptions': L.push(`const mkUO = () => ({ ${[...members, ...spreadMembers, ...other].join(', ')} });`); args = `${setup}, mkUO()`; break;
     case 'spreadArgsAll': L.push(`const ARGS: [any, any] = [${setup}, { ${[...members, ...spreadMembers, ...other].join(', ')} }];`); args = '...ARGS'; augmentable = false; break;
     case 'spreadArgsRest': L.push(`const REST: [any] = [{ ${[...members, ...spreadMembers, ...other].join(', ')} }];`); args = `${setup}, ...REST`; augmentable = false; break;
+    // a call without arguments has no options position to augment
+    case 'noArgs': args = ''; augmentable = false; for (const k of Object.keys(supplied)) delete supplied[k]; break;
     case 'objectFirstArg': args = `{ name: "ObjForm", props: UP, setup() { return () => null; } }`; augmentable = false; for (const k of Object.keys(supplied)) delete supplied[k]; break;
     case 'namedFnExpr': args = `function OwnName(props: P) { return () => null; }${members.length + other.length ? `, { ${[...members, ...other].join(', ')} }` : ''}`; fnName = 'OwnName'; for (const k of Object.keys(supplied)) if (forms[k] === 'viaSpread') delete supplied[k]; break;
     default: throw new Error(shape);
@@ -104,7 +106,7 @@ function buildCase(rng, prov, decl, shape, forms, resolveType) {
     spec: {
       withDefault, prov, isVueRuntime: ['vueNamed', 'vueNamedInner', 'vueAliased', 'nsMember', 'vueNamedSplitImports'].includes(prov), augment, mayAugment, supplied, shape, fnName, varNamed,
       // `defineComponent(...args)` hides the argument count from the transform, but not from the runtime
-      nameInjectable: resolveType && isVue && varNamed && !shape.startsWith('spread'),
+      nameInjectable: resolveType && isVue && varNamed && !shape.startsWith('spread') && shape !== 'noArgs',
       mayNameInject: resolveType && prov === 'vueAliased' && varNamed && augmentable,
     },
   };
@@ -201,7 +203,7 @@ export async function check(group, records) {
     // non-vue callee: the call must be untouched (same argument count, no injected keys)
     const calls = rt.log.filter((e) => (e.k === 'call' && (e.id === 'recordDC' || e.id === 'other.defineComponent')) || e.k === 'defineAsyncComponent');
     if (calls.length !== 1) return [inconclusive({ ...base, reason: `expected 1 recorded call, saw ${calls.length}` })];
-    const expectedArgc = { none: 1, objLiteral: 2, objLiteralTwoSpreads: 2, identOptions: 2, callOptions: 2, spreadArgsAll: 2, spreadArgsRest: 2, spreadArgsSetupOnly: 1, spreadHeadThenOpts: 2, objectFirstArg: 1, namedFnExpr: /, \{/.test(group.cases.v0.src.split('OwnName')[1] || '') ? 2 : 1 }[spec.shape];
+    const expectedArgc = { noArgs: 0, none: 1, objLiteral: 2, objLiteralTwoSpreads: 2, identOptions: 2, callOptions: 2, spreadArgsAll: 2, spreadArgsRest: 2, spreadArgsSetupOnly: 1, spreadHeadThenOpts: 2, objectFirstArg: 1, namedFnExpr: /, \{/.test(group.cases.v0.src.split('OwnName')[1] || '') ? 2 : 1 }[spec.shape];
     const argc = calls[0].id === 'recordDC' ? undefined : calls[0].argc;
     // recordDC("tag", argc, a, b): look at the final text instead of the values for the injected keys
     const finalCall = rec.final;
